@@ -273,6 +273,23 @@ def main(argv):
     if len(cases) < nb // 2:
         raise MachineryError('Regen_Hist gave %d cases\n%s' % (len(cases),
                                                                gb.tail()))
+    # directed histories: the two-step shapes in which a first (irrelevant or
+    # structural) change must not disable the detection of the second one
+    directed = [['add_other', 'add_match'], ['mkdir_sub', 'add_in_sub'],
+                ['add_match', 'remove_match'], ['add_other', 'rename_match'],
+                ['edit_script', 'add_match'], ['add_header', 'add_match'],
+                ['edit_options', 'add_other', 'add_match'],
+                ['edit_toolchain', 'add_match'], ['mkdir_gen', 'add_gen']]
+    variants = ['find', 'findrec', 'hdrdir', 'sub', 'pkg', 'missingbase',
+                'toolchain']
+    for v in variants:
+        for b in (('make', 'ninja') if not ck.quick else ('make',)):
+            for d in directed:
+                cases.append({'variant': v, 'backend': b, 'edits': d})
+    if ck.quick:
+        for v in ('sub', 'pkg', 'findrec'):
+            cases.append({'variant': v, 'backend': 'ninja',
+                          'edits': ['add_other', 'add_match']})
     resb = pmap(replay_b, cases)
     for c, events in zip(cases, resb):
         runs.append({'kind': 'variant-history', 'hist': c, 'events': events})
